@@ -12,5 +12,5 @@ if old not in s:
     print("MUTATION-NOT-APPLICABLE: pattern not found", file=sys.stderr); sys.exit(1)
 open(p, "w").write(s.replace(old, new, 1))
 PY
-cd "$(dirname "$0")/.." && VERIF_REPO="$SCR" ./check "$ID" --tier quick --no-evidence ${MUT_BUDGET:+--budget $MUT_BUDGET} 2>&1 | grep -E "^(VIOLATION|C[0-9]+ tier|HARNESS|FAIL bucket)" | cut -c1-200
+cd "$(dirname "$0")/.." && VERIF_REPO="$SCR" timeout 600 ./check "$ID" --tier quick --no-evidence ${MUT_BUDGET:+--budget $MUT_BUDGET} 2>&1 | grep -E "^(VIOLATION|C[0-9]+ tier|HARNESS|FAIL bucket)" | cut -c1-200
 rm -rf "$SCR"
